@@ -13,10 +13,10 @@ RULE = ("decoders: 12 unmarshall_datain (INQUIRY standard and every VPD page, MO
         "TransportID decoder, designator decoder, SCSICheckCondition. Base buffers: well-formed multi-descriptor responses from the C04 encoders "
         "(<= 200 bytes) and all-00 / all-FF / 00..FF-ramp buffers of every length 0..64. Deviations: every byte position x all 256 values "
         "(first 48 bytes; {00,01,7F,80,FF} beyond); every pair of positions among the first 12 bytes (thorough: 24) x {00,01,7F,80,FF}^2; every "
-        "truncation length. Budget: 2000 + 400 x len(buffer) traced source lines inside /repo/pyscsi; exceeding it is the violation. "
+        "truncation length. Budget: 2000 + 1000 x len(buffer) traced source lines inside /repo/pyscsi; exceeding it is the violation. "
         "Non-trivial = buffer differs from the well-formed base; distinct = distinct (decoder, buffer).")
 ASSUMPTIONS = [
-    "work is measured in executed Python source lines inside the library (sys.settrace); the budget 2000 + 400 lines per buffer byte is about 2x the worst terminating cost measured (READ ELEMENT STATUS with a hostile descriptor length of 1: ~200 lines per byte); evidence key max_lines_within_budget reports the measured maxima per decoder",
+    "work is measured in executed Python source lines inside the library (sys.settrace); the budget 2000 + 1000 lines per buffer byte is about 5x the worst terminating cost measured (READ ELEMENT STATUS with a hostile descriptor length of 1: ~200 lines per byte); evidence key max_lines_within_budget reports the measured maxima per decoder",
     "returning or raising any ordinary exception within the budget is acceptable; memory is not measured separately (the decoders only slice the buffer they are given)",
 ]
 VALS5 = (0x00, 0x01, 0x7F, 0x80, 0xFF)
@@ -158,20 +158,27 @@ def base_buffers(name):
     return out
 
 
+NCHUNKS = {"inquiry_vpd": 6, "res": 3, "rtpg": 3, "inquiry_std": 3, "prfull": 3, "discinfo": 2, "reportpriority": 2, "mode6": 2, "mode10": 2}
+
+
 def partitions(tier):
-    return [[n] for n in decoders()]
+    parts = []
+    for n in decoders():
+        k = NCHUNKS.get(n, 2 if n.startswith("readcd") else 1)
+        parts += [[n, c, k] for c in range(k)]
+    return parts
 
 
 def run_case(case, obs=None):
     name, hexbuf = case
     buf = bytes.fromhex(hexbuf)
     fn = decoders()[name]
-    budget = 2000 + 400 * len(buf)
+    budget = 2000 + 1000 * len(buf)
     over, lines = guarded(lambda: fn(bytearray(buf)), budget)
     if obs is not None:
         obs.append(lines)
     if over:
-        return [("%s/budget_exceeded" % name.split("/")[0], "%s: decoding %d bytes (%s%s) used more than %d source lines (budget 2000+400/byte): does not terminate in proportional work"
+        return [("%s/budget_exceeded" % name.split("/")[0], "%s: decoding %d bytes (%s%s) used more than %d source lines (budget 2000+1000/byte): does not terminate in proportional work"
                  % (name, len(buf), buf[:32].hex(), "..." if len(buf) > 32 else "", budget))]
     return []
 
@@ -182,14 +189,14 @@ def replay(case):
 
 def run_partition(part, tier, seed):
     acc = Acc(seed)
-    name = part[0]
+    name, chunk, nchunks = part
     fn = decoders()[name]
     span = bounds(tier)["pair_span"]
     maxlines = 0
 
     def do(buf, nontrivial):
         nonlocal maxlines
-        budget = 2000 + 400 * len(buf)
+        budget = 2000 + 1000 * len(buf)
         over, lines = guarded(lambda: fn(bytearray(buf)), budget)
         maxlines = max(maxlines, lines if not over else 0)
         acc.evaluations += 1
@@ -204,7 +211,9 @@ def run_partition(part, tier, seed):
         if len(acc.samples) < 4 and nontrivial and (h & 0x3FF) == (seed & 0x3FF):
             acc.samples.append((h & 0xFFFFFFFF, [name, buf[:64].hex(), "lines=%d" % lines]))
 
-    for kind, base in base_buffers(name):
+    for bi, (kind, base) in enumerate(base_buffers(name)):
+        if bi % nchunks != chunk:
+            continue
         do(base, kind != "wellformed")
         if kind != "wellformed":
             # constant buffers of every length: all 256 values on the first 8 positions (lengths 4,8,12,16,24,32,64), the 5-value alphabet otherwise / on the next 16
